@@ -143,6 +143,52 @@ def build(tier, seed, known):
         src += "CODE_%s = T.transpile(%r)\n" % (name, prog)
         src += prog_fn(name, prog, expected, ex_prog)
         plan.obs.append(Ob(name, "prog", "m", name, 120, "confirmed", "program %s: sequence of delivered reads vs. cyclic-stream oracle; cursor and scope depth afterwards" % prog, "inputs len 0..4, unbounded ints"))
+    # generated programs (C01's seeded derivations): the sequence of delivered reads (kind, scope depth, value) logged at the real
+    # get_input equals the read log of the reference interpreter, which implements Input.md directly
+    try:
+        from props.c01 import prepare
+        gen = [P for P in prepare(tier, seed)["keep"] if "?" in P][: (60 if tier == "quick" else 600)]
+    except Exception:  # noqa
+        gen = []
+    if gen:
+        src += """from hlib.refsem import Ref, Fuse
+
+def reads_agree(code, tree, inputs):
+    ctx = Context()
+    ctx.inputs[0][0] = list(inputs)
+    stack = []
+    ctx.stacks.append(stack)
+    ns = fresh_ns(ctx, stack)
+    rexc = oexc = None
+    with InputLog() as il:
+        ns["get_input"] = il.wrapper
+        try:
+            exec(code, ns)
+        except Exception as e:
+            rexc = type(e).__name__
+    ref = Ref(list(inputs))
+    try:
+        ref.run(tree, ref.stack, None)
+    except Fuse:
+        return note('reference fuse')
+    except Exception as e:
+        oexc = type(e).__name__
+    if rexc is not None or oexc is not None:
+        return note('program rejects these inputs', rexc, oexc)
+    real = [(k, v) for k, d, v in il.log]
+    want = [(k, v) for k, d, v in ref.readlog]
+    if real != want:
+        return explain('sequence of delivered reads differs from the cyclic-stream reference')
+    if len(ctx.inputs) != 1:
+        return explain('scope depth')
+    return True
+
+"""
+    for gi, P in enumerate(gen):
+        name = "gr%04d" % gi
+        src += "GCODE_%s = T.transpile(%r)\nGTREE_%s = parse(tokenise(%r))\n" % (name, P, name, P)
+        src += fn_src(name, "inputs: List[int]", ["len(inputs) <= 3", "all(-1 <= x <= 3 for x in inputs)"], ["return reads_agree(GCODE_%s, GTREE_%s, inputs)" % (name, name)])
+        plan.obs.append(Ob(name, "generated", "m", name, 120, "confirmed", "generated program %s: every value delivered by an explicit or implicit read, in order, equals the reference interpreter's read log" % P, "0..3 inputs in -1..3"))
     src += prog_fn("twin_p_lam1", '?λ_"?;†?', PROGRAMS[4][2], ex_prog, twin=True).replace("CODE_twin_p_lam1", "CODE_p_lam1")
     plan.obs.append(Ob("twin_p_lam1", "prog", "m", "twin_p_lam1", 120, "refuted", "reachability twin"))
     plan.modules["m"] = src
